@@ -433,7 +433,7 @@ func init() {
 		id := id
 		register(&Check{
 			ID:        id,
-			QuickSecs: 400, // safety net only: the quick tier is sized to finish in about 2 minutes on 16 idle cores
+			QuickSecs: 1200, // safety net only: the quick tier is sized to finish in 2-4 minutes on 16 idle cores
 			ThoroSecs: 2400,
 			Rule: "stateless model checking of the real dag.Graph.Run (instrumented at build time) under a cooperative scheduler: " +
 				"every scenario of the family (labelled DAGs x result scripts x modes x cancellation/buffering/shared tasks/construction histories) is executed for every schedule with <= k scheduling deviations, " +
